@@ -149,7 +149,7 @@ func GenerateAlias(t *rapid.T) (*Program, map[string]int) {
 		}
 	}
 	// early exit of the callee while everything is live
-	if g.chance("early-exit", 40) {
+	if g.chance("early-exit", 60) {
 		var r Stmt = &Return{}
 		if victim.Ret != nil {
 			r = &Return{X: &Lit{T: TZahl, I: 1}}
